@@ -117,6 +117,13 @@ impl Acc {
     }
     pub fn fail_extra(&mut self, idx: u64, key: String, detail: String, extra: Value) {
         self.viol_total += 1;
+        // triage aid: MC_DUMP_VIOL=<file> appends every violation (not only the first KEEP_VIOL per block)
+        if let Ok(path) = std::env::var("MC_DUMP_VIOL") {
+            use std::io::Write;
+            if let Ok(mut f) = std::fs::OpenOptions::new().create(true).append(true).open(path) {
+                let _ = writeln!(f, "{}\t{}\t{}", self.space, key, detail);
+            }
+        }
         if self.viol.len() < KEEP_VIOL {
             self.viol.push(Viol { space: self.space.clone(), idx, key, detail, extra });
         }
